@@ -128,6 +128,34 @@ fn handle(line: &str, big: &mut [u8]) -> String {
                 None => "bad-case".into(),
             }
         }
+        ["op", b] => {
+            let Ok(b) = b.parse::<u8>() else { return "bad-case".into() };
+            use ctap_types::ctap2::Operation::*;
+            match ctap_types::ctap2::Operation::try_from(b) {
+                Ok(op) => {
+                    #[allow(unreachable_patterns)]
+                    let name = match op {
+                        MakeCredential => "MakeCredential", GetAssertion => "GetAssertion",
+                        GetNextAssertion => "GetNextAssertion", GetInfo => "GetInfo", ClientPin => "ClientPin",
+                        Reset => "Reset", BioEnrollment => "BioEnrollment",
+                        CredentialManagement => "CredentialManagement", Selection => "Selection",
+                        LargeBlobs => "LargeBlobs", Config => "Config",
+                        PreviewBioEnrollment => "PreviewBioEnrollment",
+                        PreviewCredentialManagement => "PreviewCredentialManagement", Vendor(_) => "Vendor",
+                        _ => "?",
+                    };
+                    format!("ok {} {}", name, op.into_u8())
+                }
+                Err(()) => "err".into(),
+            }
+        }
+        ["vop", b] => {
+            let Ok(b) = b.parse::<u8>() else { return "bad-case".into() };
+            match ctap_types::ctap2::VendorOperation::try_from(b) {
+                Ok(op) => format!("ok {}", u8::from(op)),
+                Err(()) => "err".into(),
+            }
+        }
         _ => "bad-case".into(),
     }
 }
